@@ -347,6 +347,23 @@ def addterm_family(v, k1, seed):
 
 
 # ====================================================================== cases
+def extra_bases(seed):
+    """curated deeper bases (also in the quick tier): vector functions that contain a length-1 piecewise-linear term
+    broadcast over their components, the shapes on which sum / indexing / scaling have to expand the scalar term."""
+    K = consts(seed)
+    x, y, z = LEAVES
+    scal_cvx = [['max1', y], ['abs', x], ['max', x, K['i0']], ['max1', z], ['mul', K['i2'], ['abs', x]]]
+    scal_ccv = [['min1', y], ['min', x, K['i2']], ['neg', ['abs', x]]]
+    out = []
+    for v in (y, z):
+        for sc in scal_cvx:
+            out += [['add', v, sc], ['add', sc, v], ['sub', ['mul', K['i2'], v], ['neg', sc]]]
+        for sc in scal_ccv:
+            out += [['add', v, sc], ['sub', v, ['neg', sc]]]
+        out += [['add', ['abs', v], ['max1', v]], ['sub', ['min', v, x], ['abs', x]]]
+    return out
+
+
 def cases(tier, seed, flavour):
     seed = int(seed) % 4
     yield {'fam': 'probe', 'seed': seed, 'tier': tier}
@@ -358,6 +375,8 @@ def cases(tier, seed, flavour):
             yield {'fam': 'addterm', 'seed': seed, 'tier': tier, 'v': v, 'k1': k1}
     for lo in range(0, len(ok), 4):
         yield {'fam': 'inplace', 'seed': seed, 'tier': tier, 'pal': 'full', 'lo': lo, 'hi': min(lo + 4, len(ok))}
+    for i in range(len(extra_bases(seed))):
+        yield {'fam': 'extra', 'seed': seed, 'tier': tier, 'i': i}
     pal = 'full' if tier == 'thorough' else 'quick'
     _, ok3, _ = depth2(seed, pal)
     for i in range(len(ok3)):
@@ -996,7 +1015,8 @@ class Ctx(object):
         """in-place mutations: (label, function applying it, value transform)."""
         x = self.env['x']
         one = ['const', 'int', [1, 1], [1]]
-        st = [('iadd', lambda o: operator.iadd(o, 1), lambda v, pt: [a + 1 for a in v], one),
+        st = [('imul', lambda o: operator.imul(o, 2), lambda v, pt: [2 * a for a in v], ['const', 'int', [1, 1], [2]]),
+              ('iadd', lambda o: operator.iadd(o, 1), lambda v, pt: [a + 1 for a in v], one),
               ('isub', lambda o: operator.isub(o, x), lambda v, pt: [a - pt['x'][0] for a in v], LEAVES[0])]
         for w in obj_vars:
             if w != 'x' and VARLEN[w] == lg:
@@ -1197,6 +1217,14 @@ def run(case):
     elif fam == 'addterm':
         for t in addterm_family(case['v'], case['k1'], seed):
             c.check(t)
+    elif fam == 'extra':
+        h = extra_bases(seed)[case['i']]
+        hi = R.analyze(h, c.amemo)
+        if c.check(h) and hi.status == 'ok':
+            for t in d4_roots(h, hi, seed):
+                c.check(t, level=1)
+            for t in inplace_family(h, seed, 'quick'):
+                c.check(t, level=1)
     elif fam == 'inplace':
         uniq, ok, _ = depth2(seed, case['pal'])
         c.badkids = failing_depth2(c, seed)
